@@ -301,6 +301,24 @@ def gen_program(rng, conflict=False):
                         ["assign", v, ["cmp", "<", ["num", 1], ["num", 2]]],
                     ])
                     phases[pn].append(other)
+    if nph >= 2 and rng.random() < 0.4:
+        # the SAME local name, with different kinds, under the same right-hand sides in several phases (locals are
+        # scoped per phase): 'k <- f(t, v); inc <- dt*k' here, 'k <- 1.5; inc <- dt*k' there
+        kinds = rng.sample(["ut", "real", "cplx", "arr"], min(nph, rng.choice([2, 2, 3])))
+        shared = rng.choice([["*", ["var", "<dt>"], ["var", "k"]], ["+", ["var", "k"], ["var", "k"]],
+                             ["*", ["num", 2], ["var", "k"]]])
+        for pn, kd in zip(names, kinds):
+            if kd == "ut":
+                phases[pn].append(["call", ["k"], "<func>f", [["var", "<t>"], ["var", "<state>v"]], {}])
+            elif kd == "real":
+                phases[pn].append(["assign", "k", ["num", 1.5]])
+            elif kd == "cplx":
+                phases[pn].append(["assign", "k", ["cnum", 0.0, 1.0]])
+            else:
+                phases[pn].append(["call", ["k"], "<builtin>array", [["num", 2]], {}])
+            phases[pn].append(["assign", "inc", shared])
+            if rng.random() < 0.5 and kd != "arr":
+                phases[pn].append(["assign", "<p>h_" + pn, ["var", "inc"]])
     return {"phases": phases, "order": names}
 
 
